@@ -2173,6 +2173,13 @@ decNumber * decNumberPower(decNumber *res, const decNumber *lhs,
         #endif
           // divide lhs into 1, putting result in dac [dac=1/dac]
           decDivideOp(dac, &dnOne, lhs, &aset, DIVIDE, &status);
+          // if 1/lhs overflows then so does the power; the loop below
+          // would be abandoned at once, leaving the initial 1 as result
+          if (status & DEC_Overflow) {
+            decNumberCopy(res, &dnOne);          // [non-zero]
+            res->bits=bits;                      // set correct sign
+            decSetOverflow(res, set, &status);   // overflow result
+            break;}
           // now locate or allocate space for the inverted lhs
           if (needbytes>sizeof(invbuff)) {
             allocinv=(decNumber *)malloc(needbytes);
